@@ -110,6 +110,9 @@ def self_validate(pid: str, mod, model: Model, rep: Report) -> None:
                       "mutants_missed": missed,
                       "twins_silent": twin_ok, "twins_alarmed": twin_bad}
     rep.extra["selftest"] = out
+    for nm in na:
+        print(f"  selftest: '{nm}' not applicable (anchor text not found "
+              f"exactly once)")
     print(f"  selftest: {detected} mutants detected, {closed} failed closed, "
           f"{missed} missed; {twin_ok} twins silent, {twin_bad} alarmed; "
           f"{len(na)} not applicable")
